@@ -26,6 +26,8 @@ structure Sound (sh : Shape) : Prop where
   unaryEnf : sh.unaryEnforces = true
   exchangeEnf : sh.exchangeEnforces = true
   contOp : sh.producerContinue = .lt
+  unaryFresh : sh.unaryReplacementOnlyError = true
+  exchangeFresh : sh.exchangeReplacementOnlyError = true
 
 /-- a response as the property sees it -/
 def obs (r : Resp) : Obs :=
@@ -86,47 +88,73 @@ theorem enforce_spec {sh : Shape} (hw : sh.enforceWire = .gt) (cfg : Cfg) (errBo
       simpa [Cmp.holds] using h1
 
 /-- the common tail of the unary and exchange paths: pre-flight verdict, flush result, post-flush enforcement -/
-def finish (sh : Shape) (cfg : Cfg) (en : Bool) (errBody pre eos : Nat) (pf : Bool) (fl : Flush) : Resp :=
-  if pf then ⟨.errExt, errBody, []⟩
+def finish (sh : Shape) (cfg : Cfg) (en : Bool) (eA eB eC pre eos : Nat) (pf : Bool) (fl : Flush) : Resp :=
+  if pf then ⟨.errExt, eA, []⟩
   else match fl with
-    | .refused => ⟨.errExt, errBody, []⟩
-    | .inline w => enforce sh cfg en errBody (pre + w + eos) 0 []
-    | .uploaded w up => enforce sh cfg en errBody (pre + w + eos) up [up]
+    | .refused => ⟨.errExt, eB, []⟩
+    | .inline w => enforce sh cfg en eC (pre + w + eos) 0 []
+    | .uploaded w up => enforce sh cfg en eC (pre + w + eos) up [up]
 
-theorem unary_eq (sh : Shape) (cfg : Cfg) (pre eos errBody : Nat) (r : Batch) (framed ptr : Nat) :
-    unaryRespond sh cfg pre eos errBody r framed ptr =
-      finish sh cfg sh.unaryEnforces errBody pre eos (capHit sh.unaryPreflight (predictBatch sh cfg r) cfg.extCap)
+theorem unary_eq (sh : Shape) (cfg : Cfg) (schema pre eos errWire : Nat) (r : Batch) (framed ptr : Nat) :
+    unaryRespond sh cfg schema pre eos errWire r framed ptr =
+      finish sh cfg sh.unaryEnforces (pre + errWire + eos) (pre + errWire + eos)
+        (schema + (if sh.unaryReplacementOnlyError then 0 else pre - schema) + errWire + eos) pre eos
+        (capHit sh.unaryPreflight (predictBatch sh cfg r) cfg.extCap)
         (flushBatch sh cfg (if sh.unaryPassesBudget then cfg.extCap else none) r framed ptr) := by
   rfl
 
-theorem exchange_eq (sh : Shape) (cfg : Cfg) (pre eos errBody : Nat) (p : Payload) :
-    exchangeTurn sh cfg pre eos errBody p =
-      finish sh cfg sh.exchangeEnforces errBody pre eos (capHit sh.exchangePreflight (predictColl sh cfg p) cfg.extCap)
+theorem exchange_eq (sh : Shape) (cfg : Cfg) (pre eos errWire : Nat) (p : Payload) :
+    exchangeTurn sh cfg pre eos errWire p =
+      finish sh cfg sh.exchangeEnforces (pre + (if sh.exchangeReplacementOnlyError then 0 else p.logs) + errWire + eos)
+        (pre + errWire + eos) (pre + (if sh.exchangeReplacementOnlyError then 0 else p.logs) + errWire + eos) pre eos
+        (capHit sh.exchangePreflight (predictColl sh cfg p) cfg.extCap)
         (flushColl sh cfg (if sh.exchangePassesBudget then cfg.extCap else none) p) := by
   rfl
 
+/-- a wire-cap error produced by the post-flush check carries exactly the replacement body it was given -/
+theorem enforce_errWire (sh : Shape) (cfg : Cfg) (en : Bool) (eC body ext : Nat) (ups : List Nat)
+    (h : (enforce sh cfg en eC body ext ups).kind = .errWire) : (enforce sh cfg en eC body ext ups).body = eC := by
+  unfold enforce at h ⊢
+  split
+  · rfl
+  · rename_i h1
+    rw [if_neg h1] at h
+    split at h <;> cases h
+
+theorem finish_errWire (sh : Shape) (cfg : Cfg) (en : Bool) (eA eB eC pre eos : Nat) (pf : Bool) (fl : Flush)
+    (h : (finish sh cfg en eA eB eC pre eos pf fl).kind = .errWire) : (finish sh cfg en eA eB eC pre eos pf fl).body = eC := by
+  unfold finish at h ⊢
+  split
+  · rename_i hp; rw [if_pos hp] at h; cases h
+  · rename_i hp
+    rw [if_neg hp] at h
+    cases fl with
+    | refused => cases h
+    | inline w => exact enforce_errWire _ _ _ _ _ _ _ h
+    | uploaded w up => exact enforce_errWire _ _ _ _ _ _ _ h
+
 /-- the generic unary / exchange argument: pre-flight, flush with the cap as budget, post-flush enforcement -/
-theorem respond_spec {sh : Shape} (hw : sh.enforceWire = .gt) (he' : sh.enforceExternal = .gt) (cfg : Cfg) (errBody pre eos : Nat) (pf : Bool) (fl : Flush)
+theorem respond_spec {sh : Shape} (hw : sh.enforceWire = .gt) (he' : sh.enforceExternal = .gt) (cfg : Cfg) (eA eB eC pre eos : Nat) (pf : Bool) (fl : Flush)
     (hup : ∀ w up, fl = .uploaded w up → ∀ c, cfg.extCap = some c → up ≤ c) :
-    WireOk cfg.wireCap (obs (finish sh cfg true errBody pre eos pf fl))
-      ∧ ExternalOk cfg.extCap (obs (finish sh cfg true errBody pre eos pf fl)) := by
-  generalize hr0 : finish sh cfg true errBody pre eos pf fl = r
+    WireOk cfg.wireCap (obs (finish sh cfg true eA eB eC pre eos pf fl))
+      ∧ ExternalOk cfg.extCap (obs (finish sh cfg true eA eB eC pre eos pf fl)) := by
+  generalize hr0 : finish sh cfg true eA eB eC pre eos pf fl = r
   unfold finish at hr0
   by_cases hpf : pf = true
-  · have hr : r = ⟨.errExt, errBody, []⟩ := by rw [← hr0]; simp [hpf]
+  · have hr : r = ⟨.errExt, eA, []⟩ := by rw [← hr0]; simp [hpf]
     rw [hr]
     exact ⟨fun w _ => Or.inl rfl, fun c _ => ⟨fun h => by simp [obs] at h, fun _ => rfl⟩⟩
   · cases fl with
     | refused =>
-      have hr : r = ⟨.errExt, errBody, []⟩ := by rw [← hr0]; simp [hpf]
+      have hr : r = ⟨.errExt, eB, []⟩ := by rw [← hr0]; simp [hpf]
       rw [hr]
       exact ⟨fun w _ => Or.inl rfl, fun c _ => ⟨fun h => by simp [obs] at h, fun _ => rfl⟩⟩
     | inline w =>
-      have hr : r = enforce sh cfg true errBody (pre + w + eos) 0 [] := by rw [← hr0]; simp [hpf]
-      have he := enforce_spec hw cfg errBody (pre + w + eos) 0 []
+      have hr : r = enforce sh cfg true eC (pre + w + eos) 0 [] := by rw [← hr0]; simp [hpf]
+      have he := enforce_spec hw cfg eC (pre + w + eos) 0 []
       rw [hr]
       refine ⟨fun w' hw' => ?_, fun c _ => ⟨fun _ => ?_, fun _ => ?_⟩⟩
-      · by_cases hk : (enforce sh cfg true errBody (pre + w + eos) 0 []).kind = .ok
+      · by_cases hk : (enforce sh cfg true eC (pre + w + eos) 0 []).kind = .ok
         · right
           have := he.2 hk
           simp only [obs]
@@ -137,12 +165,12 @@ theorem respond_spec {sh : Shape} (hw : sh.enforceWire = .gt) (he' : sh.enforceE
       · simp [obs, he.1, total]
       · simp [obs, he.1]
     | uploaded w up =>
-      have hr : r = enforce sh cfg true errBody (pre + w + eos) up [up] := by rw [← hr0]; simp [hpf]
-      have he := enforce_spec hw cfg errBody (pre + w + eos) up [up]
+      have hr : r = enforce sh cfg true eC (pre + w + eos) up [up] := by rw [← hr0]; simp [hpf]
+      have he := enforce_spec hw cfg eC (pre + w + eos) up [up]
       have hle := hup w up rfl
       rw [hr]
       refine ⟨fun w' hw' => ?_, fun c hc => ⟨fun _ => ?_, fun hx => ?_⟩⟩
-      · by_cases hk : (enforce sh cfg true errBody (pre + w + eos) up [up]).kind = .ok
+      · by_cases hk : (enforce sh cfg true eC (pre + w + eos) up [up]).kind = .ok
         · right
           have := he.2 hk
           simp only [obs]
@@ -175,10 +203,11 @@ theorem shape_sound : Sound Gen.RespCaps.shape := by
 
 /-- unary: the body fits `max_response_bytes` or the response is an RPC error; uploads of a successful response fit
     `max_externalized_response_bytes`; an external refusal has uploaded nothing -/
-theorem C16_unary_any (sh : Shape) (hs : Sound sh) (cfg : Cfg) (pre eos errBody : Nat) (r : Batch) (framed ptr : Nat) :
-    WireOk cfg.wireCap (obs (unaryRespond sh cfg pre eos errBody r framed ptr))
-      ∧ ExternalOk cfg.extCap (obs (unaryRespond sh cfg pre eos errBody r framed ptr)) := by
-  have h := Aux.respond_spec hs.wireOp hs.extOp cfg errBody pre eos
+theorem C16_unary_any (sh : Shape) (hs : Sound sh) (cfg : Cfg) (schema pre eos errWire : Nat) (r : Batch) (framed ptr : Nat) :
+    WireOk cfg.wireCap (obs (unaryRespond sh cfg schema pre eos errWire r framed ptr))
+      ∧ ExternalOk cfg.extCap (obs (unaryRespond sh cfg schema pre eos errWire r framed ptr)) := by
+  have h := Aux.respond_spec hs.wireOp hs.extOp cfg (pre + errWire + eos) (pre + errWire + eos)
+    (schema + (if sh.unaryReplacementOnlyError then 0 else pre - schema) + errWire + eos) pre eos
     (capHit sh.unaryPreflight (predictBatch sh cfg r) cfg.extCap)
     (flushBatch sh cfg (if sh.unaryPassesBudget then cfg.extCap else none) r framed ptr)
     (by
@@ -189,10 +218,11 @@ theorem C16_unary_any (sh : Shape) (hs : Sound sh) (cfg : Cfg) (pre eos errBody 
   rw [Aux.unary_eq, hs.unaryEnf]
   exact h
 
-theorem C16_exchange_any (sh : Shape) (hs : Sound sh) (cfg : Cfg) (pre eos errBody : Nat) (p : Payload) :
-    WireOk cfg.wireCap (obs (exchangeTurn sh cfg pre eos errBody p))
-      ∧ ExternalOk cfg.extCap (obs (exchangeTurn sh cfg pre eos errBody p)) := by
-  have h := Aux.respond_spec hs.wireOp hs.extOp cfg errBody pre eos
+theorem C16_exchange_any (sh : Shape) (hs : Sound sh) (cfg : Cfg) (pre eos errWire : Nat) (p : Payload) :
+    WireOk cfg.wireCap (obs (exchangeTurn sh cfg pre eos errWire p))
+      ∧ ExternalOk cfg.extCap (obs (exchangeTurn sh cfg pre eos errWire p)) := by
+  have h := Aux.respond_spec hs.wireOp hs.extOp cfg (pre + (if sh.exchangeReplacementOnlyError then 0 else p.logs) + errWire + eos)
+    (pre + errWire + eos) (pre + (if sh.exchangeReplacementOnlyError then 0 else p.logs) + errWire + eos) pre eos
     (capHit sh.exchangePreflight (predictColl sh cfg p) cfg.extCap)
     (flushColl sh cfg (if sh.exchangePassesBudget then cfg.extCap else none) p)
     (by
@@ -293,22 +323,48 @@ theorem C16_producer_any (sh : Shape) (hs : Sound sh) (cfg : Cfg) (pre sentinel 
 /-! ### the obligations: the server of the working tree -/
 
 /-- a unary response body never exceeds `max_response_bytes` unless the response is an RPC error -/
-theorem C16_unary (cfg : Cfg) (pre eos errBody : Nat) (r : Batch) (framed ptr : Nat) :
-    WireOk cfg.wireCap (obs (unaryRespond' cfg pre eos errBody r framed ptr)) :=
-  (C16_unary_any _ shape_sound cfg pre eos errBody r framed ptr).1
+theorem C16_unary (cfg : Cfg) (schema pre eos errWire : Nat) (r : Batch) (framed ptr : Nat) :
+    WireOk cfg.wireCap (obs (unaryRespond' cfg schema pre eos errWire r framed ptr)) :=
+  (C16_unary_any _ shape_sound cfg schema pre eos errWire r framed ptr).1
 
 /-- same for an exchange turn, with any number of log batches -/
-theorem C16_exchange (cfg : Cfg) (pre eos errBody : Nat) (p : Payload) :
-    WireOk cfg.wireCap (obs (exchangeTurn' cfg pre eos errBody p)) :=
-  (C16_exchange_any _ shape_sound cfg pre eos errBody p).1
+theorem C16_exchange (cfg : Cfg) (pre eos errWire : Nat) (p : Payload) :
+    WireOk cfg.wireCap (obs (exchangeTurn' cfg pre eos errWire p)) :=
+  (C16_exchange_any _ shape_sound cfg pre eos errWire p).1
 
 /-- successful unary / exchange responses uploaded at most `max_externalized_response_bytes`; a response refused for
     the external cap uploaded nothing -/
-theorem C16_external (cfg : Cfg) (pre eos errBody : Nat) (r : Batch) (framed ptr : Nat) (p : Payload) :
-    ExternalOk cfg.extCap (obs (unaryRespond' cfg pre eos errBody r framed ptr))
-      ∧ ExternalOk cfg.extCap (obs (exchangeTurn' cfg pre eos errBody p)) :=
-  ⟨(C16_unary_any _ shape_sound cfg pre eos errBody r framed ptr).2,
-   (C16_exchange_any _ shape_sound cfg pre eos errBody p).2⟩
+theorem C16_external (cfg : Cfg) (schema pre eos errWire : Nat) (r : Batch) (framed ptr : Nat) (p : Payload) :
+    ExternalOk cfg.extCap (obs (unaryRespond' cfg schema pre eos errWire r framed ptr))
+      ∧ ExternalOk cfg.extCap (obs (exchangeTurn' cfg pre eos errWire p)) :=
+  ⟨(C16_unary_any _ shape_sound cfg schema pre eos errWire r framed ptr).2,
+   (C16_exchange_any _ shape_sound cfg pre eos errWire p).2⟩
+
+/-- "an oversize result becomes an RPC error *instead*": the response that replaces an oversize unary / exchange body is
+    the schema message, the error batch and the end-of-stream marker — nothing of the discarded body (neither the
+    result nor the client-log batches that helped to overshoot), so it does not grow with what was discarded -/
+theorem C16_replacement_any (sh : Shape) (hs : Sound sh) (cfg : Cfg) (schema pre eos errWire : Nat) (r : Batch)
+    (framed ptr : Nat) (p : Payload) :
+    ((unaryRespond sh cfg schema pre eos errWire r framed ptr).kind = .errWire →
+        (unaryRespond sh cfg schema pre eos errWire r framed ptr).body = schema + errWire + eos)
+      ∧ ((exchangeTurn sh cfg pre eos errWire p).kind = .errWire →
+        (exchangeTurn sh cfg pre eos errWire p).body = pre + errWire + eos) := by
+  constructor
+  · intro h
+    rw [Aux.unary_eq] at h ⊢
+    rw [Aux.finish_errWire _ _ _ _ _ _ _ _ _ _ h, hs.unaryFresh]
+    simp
+  · intro h
+    rw [Aux.exchange_eq] at h ⊢
+    rw [Aux.finish_errWire _ _ _ _ _ _ _ _ _ _ h, hs.exchangeFresh]
+    simp
+
+theorem C16_replacement (cfg : Cfg) (schema pre eos errWire : Nat) (r : Batch) (framed ptr : Nat) (p : Payload) :
+    ((unaryRespond' cfg schema pre eos errWire r framed ptr).kind = .errWire →
+        (unaryRespond' cfg schema pre eos errWire r framed ptr).body = schema + errWire + eos)
+      ∧ ((exchangeTurn' cfg pre eos errWire p).kind = .errWire →
+        (exchangeTurn' cfg pre eos errWire p).body = pre + errWire + eos) :=
+  C16_replacement_any _ shape_sound cfg schema pre eos errWire r framed ptr p
 
 /-- a producer turn exceeds the wire cap by at most its last batch (+ sentinel + EOS) and never the external cap -/
 theorem C16_producer (cfg : Cfg) (pre sentinel eos : Nat) (script : List Iter) :
@@ -330,9 +386,9 @@ theorem preflight_never_refuses_a_fitting_payload (sh : Shape) (hpre : sh.unaryP
   omega
 
 /-- non-vacuity: a result that fits, one refused before upload, one turned into a wire error -/
-example : unaryRespond' ⟨some 2000, some 1296, true, 100⟩ 200 8 900 ⟨1008, 1, 1100⟩ 1296 300 = ⟨.ok, 508, [1296]⟩ := by rfl
-example : unaryRespond' ⟨some 2000, some 1295, true, 100⟩ 200 8 900 ⟨1008, 1, 1100⟩ 1296 300 = ⟨.errExt, 900, []⟩ := by rfl
-example : unaryRespond' ⟨some 1000, none, false, 100⟩ 200 8 900 ⟨1008, 1, 1100⟩ 1296 300 = ⟨.errWire, 900, []⟩ := by rfl
+example : unaryRespond' ⟨some 2000, some 1296, true, 100⟩ 150 200 8 700 ⟨1008, 1, 1100⟩ 1296 300 = ⟨.ok, 508, [1296]⟩ := by rfl
+example : unaryRespond' ⟨some 2000, some 1295, true, 100⟩ 150 200 8 700 ⟨1008, 1, 1100⟩ 1296 300 = ⟨.errExt, 908, []⟩ := by rfl
+example : unaryRespond' ⟨some 1000, none, false, 100⟩ 150 200 8 700 ⟨1008, 1, 1100⟩ 1296 300 = ⟨.errWire, 858, []⟩ := by rfl
 example : (producerTurn' ⟨some 1000, some 3000, true, 100⟩ 200 150 8
     [⟨⟨0, some ⟨1008, 1, 1100⟩, 1296, 300⟩, false, false, 700⟩, ⟨⟨0, some ⟨1008, 1, 1100⟩, 1296, 300⟩, false, false, 700⟩,
      ⟨⟨0, some ⟨1008, 1, 1100⟩, 1296, 300⟩, false, false, 700⟩]).uploads = [1296, 1296] := by rfl
